@@ -21,7 +21,6 @@ CellFaceIterImpl& CellFaceIterImpl::operator--() {
         --lap_;
         if (lap_ < 0) {
             BaseIter::valid(false);
-            return *this;
         }
     }
     --hf_iter_;
